@@ -411,12 +411,19 @@ func (c *Check) panicInventory() {
 					// an assertion moved into a helper of the same package keeps the discharge argument
 					// of the inventoried function that calls the helper (the number of panics covered
 					// by one entry may not grow)
-					for _, caller := range directCallers(p, f) {
-						if e2, found := inv[fnName(caller)]; found {
-							e, ok, owner = e2, true, fnName(caller)
-							e.why += " [assertion now in helper " + fnName(f) + "]"
-							break
+					level := []*ssa.Function{f}
+					for depth := 0; depth < 3 && !ok; depth++ {
+						var next []*ssa.Function
+						for _, g := range level {
+							for _, caller := range directCallers(p, g) {
+								if e2, found := inv[fnName(caller)]; found && !ok {
+									e, ok, owner = e2, true, fnName(caller)
+									e.why += " [assertion now in helper " + fnName(f) + "]"
+								}
+								next = append(next, caller)
+							}
 						}
+						level = next
 					}
 				}
 				if !ok {
